@@ -30,22 +30,40 @@ def expand(records):
     def add(**c):
         base = dict(f=c["f"], op=c.get("op", ""), tgt=c.get("tgt", ""), pre=bool(c.get("pre", False)),
                     a=c.get("a", UNDEF), b=c.get("b", UNDEF), c=c.get("c", UNDEF),
-                    la=c.get("la", []), lb=c.get("lb", []), lc=c.get("lc", []), intrep=False, tree={"t": "none"})
+                    la=c.get("la", []), lb=c.get("lb", []), lc=c.get("lc", []), intrep=False, tree=c.get("tree", {"t": "none"}))
         k = json.dumps(base, sort_keys=True)
         if k in seen:
             return
         seen.add(k)
         base["id"] = len(cases)
+        base["fam"] = c.get("fam", "")                            # for the space report only (not part of the case)
         cases.append(base)
         written = base["la"] or base["lb"] or base["lc"]          # a literal decides its own representation
+        if base["f"] == "se":                                     # host floats / written literals (host ints) are its two variants
+            return
         if not written and any(int_valued(base[x]) for x in ("a", "b", "c")):
             d = dict(base)
             d["intrep"] = True
             d["id"] = len(cases)
             cases.append(d)
 
+    def fill(tr, lit):
+        """a side-effect tree as printed (grid indices at the leaves) -> the same tree with the values (and, if lit, the
+        first spelling of each value) at the leaves"""
+        if tr["t"] == "lit":
+            return {"t": "lit", "v": val(tr["gi"]), "ir": False, "lt": spell(tr["gi"], 1) if lit else []}
+        return {k: (fill(v, lit) if isinstance(v, dict) else v) for k, v in tr.items()}
+
     for r in records:
-        if r.get("kind") == "single":
+        if r.get("kind") == "se":
+            a = val(r["a"])
+            for trees, tgts in ((r["cm"], r["cmtargets"]), (r["ex"], r["extargets"])):
+                for tr in trees:
+                    for tgt in tgts:
+                        add(f="se", tgt=tgt, a=a, tree=fill(tr, False), fam="se")
+                        if r["lit"]:
+                            add(f="se", tgt=tgt, a=a, la=spell(r["a"], 1), tree=fill(tr, True), fam="se")
+        elif r.get("kind") == "single":
             a = val(r["a"])
             forms = [[]] + [spell(r["a"], k) for k in r["lit"]]
             ca, cb = r["cond"]["a"], r["cond"]["b"]
@@ -63,25 +81,28 @@ def expand(records):
                     add(f="cond", c=a, a=val(ca), b=val(cb))
         elif r.get("kind") == "pair":
             a, b = val(r["a"]), val(r["b"])
+            fam = r.get("fam", "")
             for op in r["bin"]:
-                add(f="bin", op=op, a=a, b=b)
+                add(f="bin", op=op, a=a, b=b, fam=fam)
             for op in r["cmpd"]:
                 for tgt in r["targets"]:
-                    add(f="cmpd", op=op, tgt=tgt, a=a, b=b)
+                    add(f="cmpd", op=op, tgt=tgt, a=a, b=b, fam=fam)
             if r["cmpd"]:
                 for tgt in r["targets"]:
-                    add(f="asg", tgt=tgt, a=a, b=b)
+                    add(f="asg", tgt=tgt, a=a, b=b, fam=fam)
             for cb in r["lit"]:
                 la, lb = spell(r["a"], cb["sa"]), spell(r["b"], cb["sb"])
                 for op in cb["bin"]:
-                    add(f="bin", op=op, a=a, b=b, la=la, lb=lb)
+                    add(f="bin", op=op, a=a, b=b, la=la, lb=lb, fam=fam)
                 for op in cb["cmpd"]:
                     for tgt in r["targets"]:
-                        add(f="cmpd", op=op, tgt=tgt, a=a, b=b, la=la, lb=lb)
+                        add(f="cmpd", op=op, tgt=tgt, a=a, b=b, la=la, lb=lb, fam=fam)
                 if cb["cmpd"]:
                     for tgt in r["targets"]:
-                        add(f="asg", tgt=tgt, a=a, b=b, la=la, lb=lb)
-    grid[0]["uni_active"] = sum(1 for r in records if r.get("kind") == "single" and r["a"] > grid[0]["ngrid"])
+                        add(f="asg", tgt=tgt, a=a, b=b, la=la, lb=lb, fam=fam)
+    ng, nu = grid[0]["ngrid"], grid[0]["nuni"]
+    grid[0]["uni_active"] = sum(1 for r in records if r.get("kind") == "single" and ng < r["a"] <= ng + nu)
+    grid[0]["pow_pairs"] = sum(1 for r in records if r.get("kind") == "pair" and r.get("fam") == "pow")
     return grid[0], cases
 
 
@@ -177,26 +198,36 @@ def run(rep):
     rep.add_tlc("C06.Enum+Laws", res)
     grid, cases = expand(res.records)
     vals, lits, ngrid = grid["vals"], grid["lits"], grid["ngrid"]
-    uni = set(json.dumps(v) for v in vals[ngrid:])
+    uni = set(json.dumps(v) for v in vals[ngrid:ngrid + grid["nuni"]])
     if len(cases) < 5000:
         raise Machinery("enumeration produced only %d cases" % len(cases))
-    nlit = sum(1 for c in cases if c["la"] or c["lb"] or c["lc"])
-    nuni = sum(1 for c in cases if any(x in uni for x in (json.dumps(c["a"]), json.dumps(c["b"]), json.dumps(c["c"]))))
+    old = [c for c in cases if not c["fam"]]
+    nlit = sum(1 for c in old if c["la"] or c["lb"] or c["lc"])
+    nuni = sum(1 for c in old if any(x in uni for x in (json.dumps(c["a"]), json.dumps(c["b"]), json.dumps(c["c"]))))
+    npow = sum(1 for c in cases if c["fam"] == "pow")
+    nse = sum(1 for c in cases if c["fam"] == "se")
+    if not npow or not nse:
+        raise Machinery("a family is missing from the enumeration: pow %d, side effects %d" % (npow, nse))
     rep.spaces.append({"space": "operator x operand grid^2 x target form x number representation (TLC-enumerated)",
-                       "grid": ngrid, "cases": len(cases) - nlit - nuni, "complete": True})
+                       "grid": ngrid, "cases": len(old) - nlit - nuni, "complete": True})
+    rep.spaces.append({"space": "Number::exponentiate table: base class x exponent class under ** and **= (TLC-enumerated)",
+                       "pairs": grid["pow_pairs"], "cases": npow, "complete": True})
+    rep.spaces.append({"space": "operands that change the assignment target: t op= R, t op R, R op t, R op R, conditionals, "
+                                "R in {++t t++ --t t--, t = b, t += b, a call storing b in t} x target form (TLC-enumerated)",
+                       "cases": nse, "complete": True})
     rep.spaces.append({"space": "the same with the operands written as source literals, every spelling (TLC-enumerated)",
                        "cases": nlit, "complete": True})
     rep.spaces.append({"space": "strings with a look-alike character in every position of the numeric-string grammar x operators (TLC-enumerated)",
-                       "strings": grid["uni_active"], "strings_all_tiers": len(vals) - ngrid, "cases": nuni, "complete": True})
+                       "strings": grid["uni_active"], "strings_all_tiers": grid["nuni"], "cases": nuni, "complete": True})
     # seeded random expression trees over the grid (spec-level JSON, judged by TLC)
     rnd = random.Random(rep.seed)
     ntrees = 1500 if quick else 30000
     trees = []
-    core, every = list(range(31)), list(range(len(vals)))
+    core, every = list(range(31)), list(range(ngrid + grid["nuni"]))
     for i in range(ntrees):
         t = random_tree(rnd, vals, lits, core if rnd.random() < 0.7 else every, rnd.choice([1, 2, 3, 3, 4]))
         trees.append({"id": len(cases) + i, "f": "tree", "op": "", "tgt": "", "pre": False, "a": UNDEF, "b": UNDEF, "c": UNDEF,
-                      "la": [], "lb": [], "lc": [], "intrep": False, "tree": t})
+                      "la": [], "lb": [], "lc": [], "intrep": False, "tree": t, "fam": ""})
     rep.spaces.append({"space": "random expression trees of depth <= 4 over the grid (seeded)", "cases": len(trees), "complete": False})
     allc = cases + trees
     t_1 = time.time()
@@ -244,7 +275,7 @@ def run(rep):
 
 def normal(out, c):
     if out["o"] == "value":
-        after = out["after"] if c["f"] in ("upd", "cmpd", "asg") else UNDEF
+        after = out["after"] if c["f"] in ("upd", "cmpd", "asg", "se") else UNDEF
         return {"o": "value", "res": out["res"], "after": after, "type": "", "where": ""}
     return {"o": out["o"], "res": UNDEF, "after": UNDEF, "type": out.get("type", out.get("name", "")), "where": out.get("where", "")}
 
@@ -260,6 +291,16 @@ def show_tree(t):
         return "(" + JS_OP.get(t["op"], t["op"]) + " " + show_tree(t["x"]) + ")"
     if k == "bin":
         return "(" + show_tree(t["l"]) + " " + t["op"] + " " + show_tree(t["r"]) + ")"
+    if k == "var":
+        return "t"
+    if k == "upd":
+        return t["op"] + "t" if t["pre"] else "t" + t["op"]
+    if k == "asg":
+        return "(t = " + show_tree(t["x"]) + ")"
+    if k == "cmpd":
+        return "(t " + t["op"] + "= " + show_tree(t["x"]) + ")"
+    if k == "call":
+        return "store(" + show_tree(t["w"]) + ", returns " + show_tree(t["x"]) + ")"
     return "(" + show_tree(t["c"]) + " ? " + show_tree(t["x"]) + " : " + show_tree(t["y"]) + ")"
 
 
@@ -268,6 +309,9 @@ def show_case(c):
     ir = " [int repr]" if c.get("intrep") else ""
     if f == "tree":
         return "tree " + show_tree(c["tree"])
+    if f == "se":
+        t0 = "`" + wire.from_units(c["la"]) + "`" if c.get("la") else wire.show(c["a"])
+        return "%s with t=%s (%s)" % (show_tree(c["tree"]), t0, c["tgt"])
 
     def sh(nm):
         if c.get("l" + nm):
